@@ -13,7 +13,7 @@ REG = dict(category="model_checking",
     "behind its shortest prefix. After every step the replay compares allocation counts (counting allocator: at most one malloc per create/clone, none for the "
     "preallocated variants), liveness of slots, and the library's INTERNAL blinding state (scalar_offset, ge_offset, proj_blind) with EcmultGenBlind -- the exact "
     "TLA+ specification of the HMAC-DRBG blinding chain, whose defining property kG = comb(k+offset)+ge_offset TLC checks as an invariant; at the end of each "
-    "history every API family (44 calls on fixed inputs, incl. the optional-argument spellings of the signing calls, a full MuSig session and the life cycle of a private context) must give the byte-identical result of a pristine context. Probe traces (long random histories, the "
+    "history every API family (46 calls on fixed inputs, incl. the optional-argument spellings of the signing calls, a full MuSig session and the life cycle of a private context) must give the byte-identical result of a pristine context. Probe traces (long random histories, the "
     "static context and a byte copy of it, a context on a PROT_READ page) are validated by TLC: static context = same result or illegal-callback+0, "
     "documented-static families always same. The repository's own context tests, traced by guarded hooks, must be explained event by event by the "
     "blinding specification (Trace_C20.tla). Threads: C20_SharedCtx.tla explores all interleavings of 3 threads x 2 calls over a footprint table MEASURED from the "
